@@ -200,7 +200,13 @@ func c11run(c *fw.Ctx, idx int) {
 	for k := 0; k < 3; k++ {
 		devInner.Set(fmt.Sprintf("/dev%d.jet", k), "init")
 	}
-	devSet := jet.NewSet(devInner, jet.InDevelopmentMode())
+	devLd := rec.NewLoader(devInner) // yields/sleeps at the start of Exists and Open: edits slip in between the two
+	devLd.Hook = yield
+	devSet := jet.NewSet(devLd, jet.InDevelopmentMode())
+	// a Set with custom action and comment delimiters (every parse configures a lexer of its own)
+	delimSet := jet.NewSet(jet.NewInMemLoader(), jet.WithDelims("[[", "]]"), jet.WithCommentDelims("[*", "*]"))
+	const delimSrc = `[* a note *]hello [[ "w" + "orld" ]][* {{ not an action }} *]! {{literal}} {* literal *}`
+	const delimWant = `hello world! {{literal}} {* literal *}`
 
 	// generated programs (the C01/C07/C13 generator with everything switched on), each on a Set of its own that all
 	// goroutines share and that has loaded nothing yet; expected = what the same program yields alone on another Set
@@ -289,6 +295,18 @@ func c11run(c *fw.Ctx, idx int) {
 						mismatches = append(mismatches, fmt.Sprintf("%s (first-time load) rendered %q, alone it renders %q", name, got, exp))
 						mu.Unlock()
 					}
+				case k < 13 && i%2 == 1: // Parse + Execute on the Set with custom delimiters
+					local["Parse+Execute (custom delimiters)"]++
+					t, err, pan := jx.Parse(delimSet, fmt.Sprintf("/d/%d-%d.jet", g, i), delimSrc)
+					got := fmt.Sprintf("PARSEERR %v %v", err, pan)
+					if err == nil && pan == nil {
+						got = c11exec(t, "TAG")
+					}
+					if got != delimWant {
+						mu.Lock()
+						mismatches = append(mismatches, fmt.Sprintf("template with custom delimiters rendered %q, alone %q", got, delimWant))
+						mu.Unlock()
+					}
 				case k < 13: // Parse + Execute
 					local["Parse+Execute"]++
 					t, err := set.Parse(fmt.Sprintf("/parsed/%d-%d.jet", g, i), c11sources["/page2.jet"])
@@ -331,6 +349,15 @@ func c11run(c *fw.Ctx, idx int) {
 					record(porcupine.Operation{ClientId: g, Input: c11regIn{Key: key}, Call: t0, Output: out, Return: now()})
 				case k < 19: // loader edit (development mode) = write
 					key := fmt.Sprintf("/dev%d.jet", rr.Intn(3))
+					if rr.Intn(4) == 0 {
+						// deleting the template is a write too: from then on lookups fail (a lookup overlapping the deletion
+						// may fail between Exists and Open: an error, never a crash)
+						local["InMemLoader.Delete (dev mode)"]++
+						t0 := now()
+						devInner.Delete(key)
+						record(porcupine.Operation{ClientId: g, Input: c11regIn{Key: key, Write: true, Val: "LOADERR"}, Call: t0, Output: "", Return: now()})
+						continue
+					}
 					val := fmt.Sprintf("w%d", atomic.AddInt64(&uniq, 1))
 					local["InMemLoader.Set (dev mode)"]++
 					t0 := now()
@@ -350,7 +377,12 @@ func c11run(c *fw.Ctx, idx int) {
 					local["dev-mode GetTemplate+Execute"]++
 					t0 := now()
 					out := "LOADERR"
-					if t, err := devSet.GetTemplate(key); err == nil {
+					t, err, pan := jx.Get(devSet, key)
+					if pan != nil {
+						mu.Lock()
+						mismatches = append(mismatches, fmt.Sprintf("GetTemplate(%s) in development mode panicked while the loader was being edited: %v", key, pan))
+						mu.Unlock()
+					} else if err == nil {
 						out = c11exec(t, "TAG")
 					}
 					record(porcupine.Operation{ClientId: g, Input: c11regIn{Key: key}, Call: t0, Output: out, Return: now()})
@@ -410,7 +442,7 @@ func init() {
 		ID:        "C11",
 		Technique: "Go race detector over a concurrent workload + serial-result comparison of every concurrent Execute + porcupine linearizability check of recorded global/dev-mode-template register histories",
 		Rule: "each case is one round: 16 (thorough 32) goroutines issue 120 (400) random operations on one Set: GetTemplate+Execute of 9 stable templates (extends/import/blocks, ranges of every ranger kind incl. nested, field access on struct types minted per execution or shared by ~16 consecutive executions of different goroutines (first met concurrently), include, try, functions, escaping) and of 5 generated template sets per round (the program generator with blocks, includes, try, failures, SafeWriters, exec switched on; each on a cold Set of its own shared by all goroutines), first-time loads of 6 templates requested by several goroutines at once, Parse+Execute, AddGlobal/LookupGlobal/executions rendering a global, " +
-			"and on a development-mode Set InMemLoader.Set versus GetTemplate+Execute; the recording loader/cache yield or sleep 0-80us inside every call; oracles: zero race-detector reports and no fatal error (worker death), every concurrent Execute on unedited inputs equals the output computed alone beforehand, " +
+			"Parse+Execute on a Set with custom action and comment delimiters, and on a development-mode Set InMemLoader.Set/Delete versus GetTemplate+Execute; the recording loader/cache yield or sleep 0-80us inside every call; oracles: zero race-detector reports and no fatal error (worker death), every concurrent Execute on unedited inputs equals the output computed alone beforehand, " +
 			"the timed history of writes (AddGlobal, loader Set with unique tokens) and reads (LookupGlobal, rendering executions) is linearizable as one register per key (porcupine, 60 s timeout = inconclusive); non-trivial/distinct = rounds (each with its own interleavings; overlapping operation pairs and first-time loads are reported)",
 		Assumptions: []string{"interleavings are those the scheduler produced in this run (reported as overlapping pairs), not all interleavings", "non-development first loads are not modelled as registers (two concurrent first loads may cache either version)"},
 		NCases:      c11n,
